@@ -11,6 +11,7 @@ cp /repo/go.sum build/hsrc/go.sum
 (cd build/hsrc && go build -tags verif -o ../harness .)
 ./build/harness gen -out coq/gen
 ./build/harness gen-codec -out coq/gen
+./build/harness gen-errors -out coq/gen
 (cd coq && coq_makefile -f _CoqProject -o Makefile >/dev/null 2>&1 && timeout 3000 make -j16 2>&1 | grep -v '^COQC\|^COQDEP\|^Closed under' || true)
 (cd coq && make -j16 >/dev/null 2>&1)
 sh runner/build.sh
